@@ -24,7 +24,9 @@ TEXT = {
     "C09": dict(
         technique="deterministic simulation with fault injection: seeded open/close/raise/use/DIP-parse "
                   "histories over the real global unit tables, failing registration swept over every "
-                  "position, snapshot oracle after every step",
+                  "position, garbage collection scheduled by the simulator, snapshot oracle after every "
+                  "step; a second simulator drives the same tables through generated DIP parse rounds "
+                  "that end early in every way the parser can",
         level_text="Fault enumeration inside seeded histories: nested real UnitEnvironment scopes and DIP "
                    "parses over the real process-global tables; registration fails at every position k of "
                    "the units dict (duplicate of a table / enclosing symbol, clash with a prefixed symbol "
@@ -34,7 +36,15 @@ TEXT = {
                    "recorded before the scope opened. Units are given in dict and Quantity form, with "
                    "custom and built-in conversion classes; the same units dict object is reused by later "
                    "scopes; a scope whose own exit raises, or that opens although one of its symbols "
-                   "already existed, is a violation.",
+                   "already existed, is a violation. The cyclic garbage collector runs only when the "
+                   "simulator says so (an operation of its own and the end of every run), so finalisers of "
+                   "abandoned scopes fire at replayable instants; one conversion class really converts "
+                   "(gauge units, takes over Celsius while registered) and 1 Cel -> K is probed against "
+                   "the scopes open at that moment. About 30 % of the runs are rounds of the DIP store "
+                   "machine (custom units always present; aborting assignments, violated and unevaluable "
+                   "constraints, failing references and imports, raising callbacks, I/O faults, a "
+                   "malformed first text on the same parser object) judged only by: the tables equal the "
+                   "baseline after every parse.",
         level_note="Trusted: snapshot through public accessors of ParameterTable; overlapping (non-LIFO) "
                    "scopes and double close() are out of scope of the statement.",
         design_ref="4 (C09)"),
@@ -51,7 +61,10 @@ TEXT = {
                    "value(), units() and abse(), the same kind of magnitude (float / Decimal / array), and "
                    "the same units and value of its product with one candela (recomputed from the unit "
                    "exponents, which are shared between results and operands). Arrays handed to the "
-                   "constructor by the caller must stay untouched.",
+                   "constructor by the caller must stay untouched. An in-place method that raises (to() with "
+                   "a quantity target whose magnitude is zero, an array of another shape or a Decimal; "
+                   "rebase() of a product whose custom unit's scope has ended; refused conversions) must "
+                   "leave its own object as it was, too.",
         level_note="Trusted: NumPy equality; a float that became an equal Decimal is not counted as a "
                    "change. Sampled histories, not all.",
         design_ref="4 (C07)"),
@@ -68,7 +81,10 @@ TEXT = {
                    "the chain (round trip and path independence); refused conversions (other dimension, "
                    "partially reciprocal, number to unit) must raise and leave value, units and "
                    "uncertainty bit-identical. Conversions to and from temporary custom units "
-                   "(UnitEnvironment scopes whose symbols recur with other magnitudes) are included.",
+                   "(UnitEnvironment scopes whose symbols recur with other magnitudes, with inner scopes that "
+                   "are refused) are included, as are conversions into multiples of another live quantity "
+                   "(to(Quantity)): when such a call fails at its last step the quantity must be the one "
+                   "it was.",
         level_note="Only the clauses about one mutable object through a history are decided; the factor "
                    "formula over all unit triples is sampled as a by-product, not covered. Magnitudes kept "
                    "within 1e+-290; offset/logarithmic units excluded by the statement; bare number to "
@@ -85,7 +101,9 @@ TEXT = {
                    "position out of range, unknown column) and leave the object unchanged. Every public "
                    "accessor is compared with the model after every step; after sort the column must be "
                    "monotone and the multiset of rows unchanged; malformed rows (too few values, a "
-                   "missing column) must be refused without a trace; plain, restarted, nested and zipped "
+                   "missing column, a cell that cannot be cast to its column's type, a lazy row whose source "
+                   "fails part-way) must be refused without a trace; a sort that fails (unknown column, "
+                   "unorderable values) must leave the rows as they were; plain, restarted, nested and zipped "
                    "iteration over a table are compared with the model. The grid and combination clauses are "
                    "stateless and are enumerated exhaustively (n <= 40, columns <= 8, both orders, list "
                    "and dict data; all shapes of <= 3 lists of <= 3 items) - that part is plain "
@@ -127,7 +145,9 @@ TEXT = {
                    "constraints attached in one round and violated by a modification in a later chained "
                    "round; bounds written in other units and from a palette of recurring literals; "
                    "imported copies of constrained nodes (and property lines attached to a copy only); "
-                   "typed re-definitions restating looser bounds. Oracles: the model's commit/abort verdict in both directions (reject and "
+                   "typed re-definitions restating looser bounds; conditions that cannot be evaluated "
+                   "(reference to a missing node, bound of another dimension) must make the parse fail; "
+                   "a malformed first text refused on the same parser object before the real text. Oracles: the model's commit/abort verdict in both directions (reject and "
                    "accept), and an independent evaluator re-checks every returned environment against "
                    "all constraints its nodes carry, whatever the model predicted.",
         level_note="Values within 1e-3 relative of a boundary without sitting on it are treated as "
@@ -146,7 +166,8 @@ TEXT = {
                    "environment; imports onto existing paths (assignment of the imported value and unit); "
                    "node-to-node comparison steps; registered callback functions (constant, reading a "
                    "stored node, scribbling over their data, raising). Faults: requests selecting none / "
-                   "several / {?} outside a condition / unknown source / missing file (must abort; an empty import may abort or add nothing), ENOENT / EACCES / EIO / undecodable "
+                   "several / {?} outside a condition / unknown source / missing file / a host adopting a "
+                   "unit of another dimension (must abort; an empty import may abort or add nothing), ENOENT / EACCES / EIO / undecodable "
                    "on a chosen open, file content replaced between rounds. Oracles: values, units, types "
                    "and paths as the model predicts; after every round every earlier environment "
                    "(including the base) and its custom units report exactly their commit-time snapshot "
